@@ -125,7 +125,7 @@ theorem readRows_roundtrip (ncol : Nat) (hpos : 0 < ncol) : ∀ (rows : List Lin
 
 /-- **Db round trip**: reading what `Db::_serialize` wrote gives back the same table -/
 theorem db_roundtrip (d : DbFile) (ncolT nechT : String)
-    (hn : parseInt? ncolT = some (d.ncol : Int)) (he : parseInt? nechT = some (d.nech : Int))
+    (hn : parseCInt? ncolT = some (d.ncol : Int)) (he : parseCInt? nechT = some (d.nech : Int))
     (hnt : tokOK ncolT = true) (het : tokOK nechT = true)
     (hpos : 0 < d.ncol)
     (hl : d.locators.length = d.ncol ∧ ∀ t ∈ d.locators, tokOK t = true)
@@ -171,7 +171,8 @@ theorem db_roundtrip (d : DbFile) (ncolT nechT : String)
   rw [show (writeVec "Names" d.names ++ [writeComment "Array of values"] ++ d.rows)
       = writeVec "Names" d.names ++ ([writeComment "Array of values"] ++ d.rows) by simp [List.append_assoc]]
   rw [hv2]
-  simp only [hrows]
+  have hne0 : ¬ d.ncol = 0 := by omega
+  simp only [hne0, if_false, hrows]
 
 /-! non-vacuity: a 2×2 table with an undefined cell -/
 def ex : DbFile := ⟨2, 2, ["x1", "z1"], ["east", "grade"], [["1", "NA"], ["2.5", "7"]]⟩
